@@ -170,6 +170,7 @@ for _p in ("C01", "C02", "C03", "C05", "C07", "C08", "C11", "C14"):
 PROPS["C05"]["assumptions"][0] = "handlers are bound as maps, as structs with func fields (reflect.StructOf) and with BindOpts.StatePrefix; struct METHODS (as opposed to func fields) are not exercised; generated state names are collision-free"
 PROPS["C08"]["timeout"] = 3000
 PROPS["C08"]["assumptions"].append("a stall is 120 ms against a HandlerTimeout of 30 ms; HandlerDeadline (10 s) is never reached")
+PROPS["C14"]["assumptions"].append("faulted transitions (a handler invocation that panics) are exempt from the time clauses and the Finals flag, as the property states; pairs (i, i+1) of the before/after chain are judged when neither is faulted (Spec/C14f.v); theorems about runs cover fault-free scripts, faulted runs are covered by the correspondence only")
 PROPS["C11"]["assumptions"].append("64 (thorough: 256) re-executions per case stand in for 'every run'")
 
 
